@@ -111,3 +111,8 @@ package semigroup
 //@   ensures Ptr(lazy.Done(s)).Combine(Ptr(lazy.Done(s)).Combine(a, b), c) != nil ==>
 //@     Eq(*Ptr(lazy.Done(s)).Combine(Ptr(lazy.Done(s)).Combine(a, b), c), *Ptr(lazy.Done(s)).Combine(a, Ptr(lazy.Done(s)).Combine(b, c)))
 //@   tag assocTarget
+//
+//@ lemma newDef[T any](combine fp.SemigroupFunc[T], a T, b T)
+//@   prop C11
+//@   ensures EqT(New(combine).Combine(a, b), combine(a, b))
+//@   tag combine
